@@ -225,6 +225,10 @@ Definition G27_attach (s : st) (g : Z) (et : nat) : bool :=
 (* G27b: the reference values of table et are unique *)
 Fixpoint nodupb (l : list Z) : bool := match l with [] => true | x :: t => negb (zin x t) && nodupb t end.
 Definition G27_names (s : st) (et : nat) : bool := nodupb (names s et) && nodupb (ids s et).
+(* G27c: every reference-column row sits on a table with unique reference values (guard of the set-model refinement of
+   detach / drop_elements / drop_lines in C27/Refine.v) *)
+Definition G27_refcols (s : st) : bool :=
+  forallb (fun r => rc_null (grc r) || G27_names s (gty r)) (grp s).
 
 (* ---- output *)
 Definition orc (r : rc) : out := match r with RNone => OZ 0 | RNaN => OZ 1 | RName => OZ 2 end.
@@ -235,3 +239,5 @@ Definition ost (ets : list nat) (gids : list Z) (s : st) : out :=
        olist (fun g => olist (fun et => ores (olist OZ) (members_of s g et)) ets) gids ].
 Definition mk_tab (tabs : list (list (Z * Z))) : nat -> list (Z * Z) := fun et => nth et tabs [].
 Definition run_step (ets : list nat) (gids : list Z) (s : st) (o : op) : out := ores (ost ets gids) (step s o).
+(* the same with the guard G27_refcols of the state before *)
+Definition run_step_g (ets : list nat) (gids : list Z) (s : st) (o : op) : out := OL [OB (G27_refcols s); run_step ets gids s o].
